@@ -3,14 +3,14 @@ CONSTANTS
   Maturity = 3
   Slates = {"s1"}
   Amounts = {1000}
-  NFund = 1
-  MaxH = 6
-  MaxLog = 1
+  NFund = 2
+  MaxH = 7
+  MaxLog = 2
   UseLate = FALSE
   UseTtl = FALSE
   UseInvoice = FALSE
   UseAccounts = TRUE
-  UseMineTo = TRUE
+  UseMineTo = FALSE
   UseCancelBySlate = FALSE
   MaxAdv = 1
   MaxFork = 0
@@ -18,7 +18,7 @@ CONSTANTS
   UseAccounts2 = FALSE
   UseSelf = FALSE
   FundAcct2 = FALSE
-  UseBuild = FALSE
+  UseBuild = TRUE
   UseDiverge = FALSE
   UseAdv = FALSE
 SPECIFICATION Spec
@@ -27,11 +27,7 @@ INVARIANT Inv_Exclusive
 PROPERTY Prop_Replay
 PROPERTY Prop_SelectAvoidsReserved
 PROPERTY Prop_Cancel
-PROPERTY Prop_Foreign
 PROPERTY Prop_Paths
-PROPERTY Prop_Ttl
-PROPERTY Prop_Books
-PROPERTY Prop_Isolation
 PROPERTY EmitEdges
 CONSTRAINT Bound
 VIEW View
